@@ -348,6 +348,61 @@ func (r *runner) checkWire(s Spec) []byte {
 	}
 	r.det++
 
+	// the same configuration object used for a second connection: still exactly as configured, and whatever is
+	// fresh per hello is drawn again (the Rand stream continues, so the bytes differ)
+	{
+		cfgR := buildConfig(s, "a")
+		r1 := capture(cfgR)
+		r2 := capture(cfgR)
+		r.runs += 2
+		mr1, _, e1 := extractHello(r1.stream)
+		mr2, _, e2 := extractHello(r2.stream)
+		if e1 != nil || e2 != nil {
+			viol("reuse: the second connection made with the same configuration object sends no complete ClientHello", errClass(r2.err), r2.stream)
+			return nil
+		}
+		w1, _ := parseHello(mr1)
+		w2, pe := parseHello(mr2)
+		if w1 == nil || w2 == nil {
+			viol("reuse: the second ClientHello of the same configuration object is malformed", fmt.Sprint(pe), mr2)
+			return nil
+		}
+		start := 0
+		if s.Timestamp {
+			start = 4
+		}
+		if fresh && bytes.Equal(w1.random[start:], w2.random[start:]) {
+			viol("fresh random: the second hello of the same configuration object repeats the first hello's random", hex.EncodeToString(w2.random), mr2)
+			return nil
+		}
+		if freshSID && len(w2.sid) > 0 && bytes.Equal(w1.sid, w2.sid) {
+			viol("fresh session id: the second hello of the same configuration object repeats the first one's", hex.EncodeToString(w2.sid), mr2)
+			return nil
+		}
+		if s.Cache == nil && len(mr1) == len(mr2) {
+			blank := func(m []byte, w *wireHello) []byte {
+				m = append([]byte(nil), m...)
+				if fresh && len(m) >= 38 {
+					copy(m[6:38], make([]byte, 32))
+				} else if s.Timestamp && len(m) >= 10 {
+					copy(m[6:10], make([]byte, 4))
+				}
+				if freshSID && len(m) >= 39+len(w.sid) {
+					copy(m[39:39+len(w.sid)], make([]byte, len(w.sid)))
+				}
+				return m
+			}
+			if !bytes.Equal(blank(mr1, w1), blank(mr2, w2)) {
+				viol("reuse: the second hello of the same configuration object differs from the first outside random/session id", hexShort(mr2), mr1)
+				return nil
+			}
+		} else if s.Cache == nil {
+			viol("reuse: the second hello of the same configuration object has another length", fmt.Sprintf("%d vs %d bytes", len(mr1), len(mr2)), mr2)
+			return nil
+		}
+		r.h["reuse of one configuration object: second hello consistent"]++
+	}
+
 	if fresh || freshSID {
 		b := capture(buildConfig(s, "b"))
 		r.runs++
@@ -880,7 +935,7 @@ func main() {
 			"× every ordered list (repetition allowed) of ≤3 extensions from a 13-value pool (quick: lists ≤2 × ≤2 deviations and lists of 3 × ≤1 deviation; thorough: full product, plus lists ≤3 from a 21-value pool × ≤1 deviation, lists ≤2 × ≤3 deviations, all lists of 4 × baseline); " +
 			"each extension type alone over its value alphabet (names/protocol lists of 0–3, curves: all duplicate-free orders of the 4 named curves, point formats, ticket lengths up to 65540, signature algorithm singles and pairs over 14 ids) × ServerName {set, empty}; " +
 			"fingerprint SessionCache scenarios (cached version/suite resumable or not × RandomSessionID × Autopopulate). " +
-			"A case is non-trivial (distinct) when a ClientHello was written and validated field by field; every configuration is run twice with the same Rand seed (byte-identical) and, with fresh randomness, once more with another seed.")
+			"A case is non-trivial (distinct) when a ClientHello was written and validated field by field; every configuration is run twice with the same Rand seed (byte-identical), twice on ONE configuration object (second hello: fresh parts drawn again, everything else identical) and, with fresh randomness, once more with another seed.")
 		c.Assume("the hello is what tls.Client(conn,cfg).Handshake() writes first to a tlsx pipe whose peer reads one handshake message and closes",
 			"reference encodings/parsers are written from RFC 5246/6066/7301/8422/5077/6962/7627/5746 in model.go",
 			"configurations without a valid TLS encoding (empty lists, over-long values) or using ids zcrypto need not implement may be refused with an error before anything is written; if a hello is sent it must still be exact",
